@@ -230,3 +230,117 @@ Print Assumptions C12_partition_closed_form.
 Print Assumptions C12_partition.
 Print Assumptions C12_arg_partition.
 Print Assumptions C12_arg_partition_length_and_nonnull.
+
+(* ==== extension: the index arithmetic of vquantile AT BINARY64 ============================================
+   Carrier: Coq's primitive `float` (IEEE 754 binary64; instance NumF64 of Base/F64.v — the carrier the
+   correspondence run evaluates and compares with Rust), floor / ceiling = the NumFloor instance of Run/RunC12.v.
+   `f2r x` is the real value of a finite float (Flocq's B2R), `Zfloor` / `Zceil` Flocq's floor / ceiling of a real.
+   Proofs: Proofs/QIdxFloat.v, through Flocq's specification of IEEE arithmetic (Bmult_correct, Bminus_correct,
+   binary_normalize_correct, round_le, round_generic) and Flocq.IEEE754.PrimFloat.  Axioms: the Reals axioms and
+   the standard library's specification of the primitive float operations (Floats/FloatAxioms.v); notes/C12.md. *)
+From Coq Require Import Floats.
+From Flocq Require Import Core.
+From Tevec Require Import Base.F64 Proofs.TransQuantile Proofs.RoundSum Proofs.QIdxFloat.
+From Tevec Require Run.RunC12.
+
+(* the floor / ceiling instance the theorems below talk about is the one the correspondence run executes *)
+Theorem C12_binary64_floor_instance_is_the_run_instance : QIdxFloat.NumFloorF64 = Run.RunC12.NumFloorF64.
+Proof. exact NumFloorF64_is_the_run_instance. Qed.
+
+(* it computes the mathematical floor / ceiling of the value of every finite float *)
+Theorem C12_binary64_floor_ceil :
+  forall x : float, PrimFloat.is_finite x = true ->
+    @nfloorZ float NumFloorF64 x = Zfloor (f2r x) /\ @nceilZ float NumFloorF64 x = Zceil (f2r x).
+Proof. intros x H. split; [apply f64_floorZ_spec|apply f64_ceilZ_spec]; exact H. Qed.
+
+(* `(m as f64)` is exact below 2^53 *)
+Theorem C12_binary64_length_cast_exact :
+  forall m : nat, (Z.of_nat m < 2 ^ 53)%Z ->
+    PrimFloat.is_finite (nofnat (A := float) m) = true /\ f2r (nofnat (A := float) m) = IZR (Z.of_nat m).
+Proof. exact nofnat_f64_exact. Qed.
+
+(* the guard `0 <= q && q <= 1` in binary64 comparisons: q is finite (not NaN, not infinite) with value in [0, 1] *)
+Theorem C12_binary64_unit_guard :
+  forall q : float, nleb (A := float) nzero q && nleb q none = true ->
+    PrimFloat.is_finite q = true /\ 0 <= f2r q <= 1.
+Proof. exact unit_guard_f64. Qed.
+
+(* THE INDEX LAW, both indices, on the branch the code takes (q <= 0.5: h = fl((n-1) q);  q > 0.5: h = fl((n-1) fl(1-q))):
+   h is finite and 0 <= floor h <= ceil h <= n-1, ceil h - floor h <= 1 — for every q in [0, 1] and EVERY n >= 1 *)
+Theorem C12_quantile_index_binary64 :
+  forall (q : float) (n : nat),
+    nleb (A := float) nzero q && nleb q none = true -> (1 <= n)%nat ->
+    let h := nmul (nofnat (n - 1)) (if nleb q nhalf then q else nsub none q) in
+    PrimFloat.is_finite h = true /\
+    (0 <= @nfloorZ float NumFloorF64 h <= @nceilZ float NumFloorF64 h)%Z /\
+    (@nceilZ float NumFloorF64 h <= Z.of_nat n - 1)%Z /\
+    (@nceilZ float NumFloorF64 h - @nfloorZ float NumFloorF64 h <= 1)%Z.
+Proof. exact qidx_f64_in_range_all. Qed.
+
+(* whatever the branch: for n - 1 < 2^53 (the length cast is exact) BOTH products fl((n-1) q) and fl((n-1) fl(1-q))
+   give indices in range, for every q in [0, 1]  (idx_in_range h n := the four conjuncts above) *)
+Theorem C12_quantile_index_binary64_exact_length :
+  forall (n : nat) (q : float),
+    (1 <= n)%nat -> (Z.of_nat n <= 2 ^ 53)%Z -> nleb (A := float) nzero q && nleb q none = true ->
+    idx_in_range (nmul (nofnat (n - 1)) q) n /\ idx_in_range (nmul (nofnat (n - 1)) (nsub none q)) n.
+Proof. exact qidx_f64_in_range. Qed.
+
+(* ... and the bound is needed there: (2^53+3) as f64 = 2^53+4, so with q = 1 the product the code does not form
+   (q > 0.5 takes the mirrored branch) would be an index outside 0 .. n-1 *)
+Theorem C12_quantile_naive_product_out_of_range :
+  exists (n : nat) (q : float),
+    nleb (A := float) nzero q && nleb q none = true /\ (2 <= n)%nat /\
+    (Z.of_nat n - 1 < @nceilZ float NumFloorF64 (nmul (nofnat (n - 1)) q))%Z.
+Proof. exact naive_product_out_of_range. Qed.
+
+(* TransQuantile.QIdxLaw (the premise of C10_vquantile_index_in_range / C10_vquantile_never_panics /
+   C08_transparent_quantile_index_law) holds at binary64 *)
+Theorem C12_quantile_index_law_binary64 : QIdxLaw (A := float) (NF := NumFloorF64).
+Proof. exact qidx_law_f64. Qed.
+
+(* hence vquantile / vmedian at binary64 are total, for every null dictionary over f64 (NaN as null, Option<f64>,
+   never-null): a value, or the documented Err for q outside [0, 1] (NaN included) — never a panic *)
+Theorem C12_quantile_total_binary64 :
+  forall (T : Type) (DT : IsNone T float) (q : float) (m : qmethod) (xs : list T),
+    (exists r, vquantile (NF := NumFloorF64) q m xs = Ok r /\
+               (r = None <-> nleb (A := float) nzero q && nleb q none = false)) /\
+    (exists v, vmedian (NF := NumFloorF64) xs = Ok v).
+Proof. intros T DT q m xs. split; [apply vquantile_never_panics_f64|apply vmedian_never_panics_f64]. Qed.
+
+(* ---- non-vacuity ---- *)
+Example C12_example_binary64_floor :
+  PrimFloat.is_finite (-2.5)%float = true /\
+  @nfloorZ float NumFloorF64 (-2.5)%float = (-3)%Z /\ @nceilZ float NumFloorF64 (-2.5)%float = (-2)%Z.
+Proof. vm_compute. repeat split. Qed.
+
+Example C12_example_binary64_cast : (Z.of_nat 5 < 2 ^ 53)%Z /\ nofnat (A := float) 5 = 5%float.
+Proof. split; [reflexivity|vm_compute; reflexivity]. Qed.
+
+(* q = 0x1.6666666666666p-1 (0.7) passes the guard and takes the mirrored branch: fl(1 - q) = 0.30000000000000004,
+   h = fl(4 * that) = 1.2000000000000002 *)
+Example C12_example_binary64_index :
+  nleb (A := float) nzero 0x1.6666666666666p-1%float && nleb 0x1.6666666666666p-1%float none = true /\
+  (1 <= 5)%nat /\ (Z.of_nat 5 <= 2 ^ 53)%Z /\
+  nleb 0x1.6666666666666p-1%float (nhalf (A := float)) = false /\
+  @nfloorZ float NumFloorF64 (nmul (nofnat (5 - 1)) (nsub none 0x1.6666666666666p-1%float)) = 1%Z /\
+  @nceilZ float NumFloorF64 (nmul (nofnat (5 - 1)) (nsub none 0x1.6666666666666p-1%float)) = 2%Z.
+Proof.
+  split; [vm_compute; reflexivity|]. split; [lia|]. split; [lia|].
+  split; [vm_compute; reflexivity|]. split; vm_compute; reflexivity.
+Qed.
+
+Example C12_example_binary64_quantile :
+  vquantile (NF := NumFloorF64) (DT := IsNoneF64) 0x1.6666666666666p-1%float Lower
+            [3%float; nan; 1%float; 2%float; 5%float; 4%float] = Ok (Some 3%float) /\
+  vmedian (NF := NumFloorF64) (DT := IsNoneF64) [3%float; nan; 1%float; 2%float; 5%float; 4%float] = Ok 3%float.
+Proof. split; vm_compute; reflexivity. Qed.
+
+Print Assumptions C12_binary64_floor_instance_is_the_run_instance.
+Print Assumptions C12_binary64_floor_ceil.
+Print Assumptions C12_binary64_length_cast_exact.
+Print Assumptions C12_binary64_unit_guard.
+Print Assumptions C12_quantile_index_binary64.
+Print Assumptions C12_quantile_index_binary64_exact_length.
+Print Assumptions C12_quantile_naive_product_out_of_range.
+Print Assumptions C12_quantile_index_law_binary64.
+Print Assumptions C12_quantile_total_binary64.
